@@ -111,7 +111,7 @@ def proj_of(jp):
             out.append("*")
         elif isinstance(e, dict):
             if "f" in e:
-                out.append(("f", e["f"], e["n"]))
+                out.append(("f", e["f"], e["n"], e.get("of", "")))
             elif "d" in e:
                 out.append(("d", e["d"], e["n"]))
             elif "ix" in e:
@@ -233,7 +233,7 @@ class Walker:
             t = self.place(st, r["p"])
             if t[0] == "agg":
                 return ("c", "discr", ("variant", t[1], t[2]))
-            return ("discr", t)
+            return ("discr", t, r.get("nv", -1), r.get("ety", ""))
         if k == "agg":
             ops = tuple(self.operand(st, o) for o in r["ops"])
             if "adt" in r:
@@ -370,6 +370,8 @@ class Walker:
                     s2.events.append(("switch", bb, term, v, listed))
                     refine(s2, term, v)
                     self._walk(tb, s2)
+                if term[0] == "discr" and len(term) > 2 and term[2] == len(set(listed)) and term[2] > 0:
+                    return  # every variant is listed: the otherwise edge is infeasible
                 s2 = st
                 s2.events.append(("switch", bb, term, "else", listed))
                 bb = t["else"]
